@@ -109,6 +109,7 @@ func (e *EventSubscription) addSubscriber(sub Subscriber, t *Throttle) {
 		case stateError:
 			e.count--
 			e.mu.Unlock()
+			verifPoint("cache.addSub")
 			defer e.mu.Lock()
 
 			// Metrics
@@ -121,6 +122,7 @@ func (e *EventSubscription) addSubscriber(sub Subscriber, t *Throttle) {
 		// stateModel or stateCollection
 		default:
 			e.mu.Unlock()
+			verifPoint("cache.addSub")
 			defer e.mu.Lock()
 			sub.Loaded(rs, nil)
 		}
@@ -131,6 +133,7 @@ func (e *EventSubscription) addSubscriber(sub Subscriber, t *Throttle) {
 // If a worker is already executing a callback on the EventSubscription, the callback
 // will be queued on the EventSubscription, and executed in order.
 func (e *EventSubscription) Enqueue(f func()) {
+	verifActivity()
 	e.mu.Lock()
 	count := len(e.queue)
 	locks := e.locks
@@ -149,6 +152,7 @@ func (e *EventSubscription) Enqueue(f func()) {
 // locks reaches zero, callbacks passed to Enqueue will no longer
 // be queued.
 func (e *EventSubscription) enqueueUnlock(f func()) {
+	verifActivity()
 	e.mu.Lock()
 	count := len(e.locks)
 	e.locks = append(e.locks, f)
@@ -187,6 +191,7 @@ func (e *EventSubscription) processQueue() {
 			return
 		}
 		e.locks = nil
+		verifCount("query.unlock")
 		if len(e.queue) == 0 {
 			return
 		}
@@ -215,6 +220,7 @@ func (e *EventSubscription) addCount() {
 	defer e.mu.Unlock()
 
 	if e.count == 0 {
+		verifEvictCancel(e)
 		e.cache.unsubQueue.Remove(e)
 	}
 	e.count++
@@ -225,6 +231,7 @@ func (e *EventSubscription) addCount() {
 func (e *EventSubscription) removeCount(n int64) {
 	e.count -= n
 	if e.count == 0 && n != 0 {
+		verifEvict(e.cache, 1)
 		e.cache.unsubQueue.Add(e)
 	}
 
@@ -283,11 +290,13 @@ func (e *EventSubscription) handleQueryEvent(subj string, payload []byte) {
 	}
 
 	// We lock events from being handled until all event queries has been handled first
+	verifCount("query.lock")
 	e.lockEvents(l)
 
 	for q, rs := range e.queries {
 		// Do not include queries still being requested
 		if rs.state <= stateRequested {
+			verifCount("query.skipRequested")
 			go e.enqueueUnlock(func() {})
 			continue
 		}
@@ -349,6 +358,7 @@ func (e *EventSubscription) mqUnsubscribe() bool {
 	// Have we just received a subscription?
 	// In that case we abort
 	if e.count > 0 {
+		verifCount("cache.evictAbort")
 		return false
 	}
 
